@@ -20,14 +20,14 @@ import (
 var rootNames = []string{"Search", "Compile", "MustCompile", "(*JMESPath).Search", "NewParser", "(*Parser).Parse", "NewLexer"}
 
 type analyzer struct {
-	prog      *ssa.Program
-	pkg       *ssa.Package
-	fns       []*ssa.Function // reachable package functions, sorted by name
-	entry     map[*ssa.Function]bool
-	callees   map[ssa.CallInstruction][]*ssa.Function // in-package callees per site
-	paramOrg  map[*ssa.Parameter]org
-	retOrg    map[*ssa.Function][]org
-	bad       map[string]string // per-call receiver type -> why it is not per-call after all
+	prog     *ssa.Program
+	pkg      *ssa.Package
+	fns      []*ssa.Function // reachable package functions, sorted by name
+	entry    map[*ssa.Function]bool
+	callees  map[ssa.CallInstruction][]*ssa.Function // in-package callees per site
+	paramOrg map[*ssa.Parameter]org
+	retOrg   map[*ssa.Function][]org
+	bad      map[string]string // per-call receiver type -> why it is not per-call after all
 }
 
 type record struct {
@@ -384,22 +384,10 @@ func (a *analyzer) records() []record {
 			}
 		})
 	}
-	sort.SliceStable(recs, func(i, j int) bool {
-		x, y := recs[i], recs[j]
-		if x.file != y.file {
-			return x.file < y.file
-		}
-		if x.line != y.line {
-			return x.line < y.line
-		}
-		if x.col != y.col {
-			return x.col < y.col
-		}
-		if x.kind != y.kind {
-			return x.kind < y.kind
-		}
-		return x.detail < y.detail
-	})
+	key := func(r record) string {
+		return fmt.Sprintf("%s:%07d:%05d:%s:%s:%s", r.file, r.line, r.col, r.kind, r.fn, r.detail)
+	}
+	sort.SliceStable(recs, func(i, j int) bool { return key(recs[i]) < key(recs[j]) })
 	return recs
 }
 
@@ -427,7 +415,9 @@ func (a *analyzer) render(repo string, recs []record) string {
 		sb.WriteString("--   " + l + "\n")
 	}
 	sb.WriteString("namespace Jmes.GeneratedWrites\n\ninductive Origin where\n  | fresh | callLocal | param | receiver | global | unknown\n  deriving DecidableEq, Repr\n\n")
-	sb.WriteString("structure WriteSite where\n  fn : String\n  pos : String\n  kind : String\n  origin : Origin\n  detail : String\n  deriving Repr\n\n")
+	sb.WriteString("structure WriteSite where\n  fn : String        -- e.g. \"(*Parser).advance\", \"jpfSortBy\"\n  pos : String       -- \"parser.go:574:2\"\n" +
+		"  kind : String      -- \"store\" | \"mapupdate\" | \"append\" | \"copy\" | \"delete\" | \"call:<pkg.Func>\"\n  origin : Origin\n" +
+		"  detail : String    -- short human-readable trace of the origin walk\n  deriving Repr\n\n")
 	sb.WriteString("def writeSites : List WriteSite := [\n")
 	for i, r := range recs {
 		sep := ","
